@@ -44,32 +44,34 @@ Proof.
 Qed.
 
 Lemma roundtrip_v1_fields enc dec zip unzip : codec_env enc dec zip unzip ->
-  forall thr has_c p n ws p' s rest,
+  forall thr has_c hd p n ws p' s rest,
+  (has_c = true -> hd = true) ->
   wf_packet p -> clean_flags p -> body_ok p ->
   write_v1 enc zip thr has_c p = mkWres (Some n) ws p' ->
   concat s = concat ws ++ rest ->
-  exists q, r_out (read_packet_v1 dec unzip has_c s packet0) = Ok q
-            /\ concat (r_rest (read_packet_v1 dec unzip has_c s packet0)) = rest
+  exists q, r_out (read_packet_v1 dec unzip hd s packet0) = Ok q
+            /\ concat (r_rest (read_packet_v1 dec unzip hd s packet0)) = rest
             /\ same_v1 p q.
 Proof.
-  intros [E1 E2 E3 E4] thr has_c p n ws p' s rest W Hc Hb Hw Hs.
-  destruct (roundtrip_v1 enc dec zip unzip E1 E2 E3 E4 thr has_c p n ws p' s rest packet0 W Hc Hw Hs)
+  intros [E1 E2 E3 E4] thr has_c hd p n ws p' s rest Himp W Hc Hb Hw Hs.
+  destruct (roundtrip_v1 enc dec zip unzip E1 E2 E3 E4 thr has_c hd p n ws p' s rest packet0 Himp W Hc Hw Hs)
     as (R1 & R2 & _).
   exists (decoded_v1 p packet0). split; [assumption|]. split; [assumption|].
   apply decoded_v1_same. assumption.
 Qed.
 
 Lemma roundtrip_v2_fields enc dec zip unzip : codec_env enc dec zip unzip ->
-  forall thr has_c p n ws p' s rest,
+  forall thr has_c hd p n ws p' s rest,
+  (has_c = true -> hd = true) ->
   wf_packet p -> clean_flags p -> body_ok p ->
   write_v2 enc zip thr has_c p = mkWres (Some n) ws p' ->
   concat s = concat ws ++ rest ->
-  exists q, r_out (read_packet_v2 dec unzip has_c s packet0) = Ok q
-            /\ concat (r_rest (read_packet_v2 dec unzip has_c s packet0)) = rest
+  exists q, r_out (read_packet_v2 dec unzip hd s packet0) = Ok q
+            /\ concat (r_rest (read_packet_v2 dec unzip hd s packet0)) = rest
             /\ same_v2 p q.
 Proof.
-  intros [E1 E2 E3 E4] thr has_c p n ws p' s rest W Hc Hb Hw Hs.
-  destruct (roundtrip_v2 enc dec zip unzip E1 E2 E3 E4 thr has_c p n ws p' s rest packet0 W Hc Hw Hs)
+  intros [E1 E2 E3 E4] thr has_c hd p n ws p' s rest Himp W Hc Hb Hw Hs.
+  destruct (roundtrip_v2 enc dec zip unzip E1 E2 E3 E4 thr has_c hd p n ws p' s rest packet0 Himp W Hc Hw Hs)
     as (R1 & R2 & _).
   exists (decoded_v2 p packet0). split; [assumption|]. split; [assumption|].
   apply decoded_v2_same. assumption.
@@ -144,33 +146,35 @@ Proof.
 Qed.
 
 Lemma roundtrip_v1_any enc dec zip unzip : codec_env enc dec zip unzip ->
-  forall thr has_c p n ws p' s rest,
+  forall thr has_c hd p n ws p' s rest,
+  (has_c = true -> hd = true) ->
   wf_packet p -> body_ok p ->
   write_v1 enc zip thr has_c p = mkWres (Some n) ws p' ->
   concat s = concat ws ++ rest ->
-  exists q, r_out (read_packet_v1 dec unzip has_c s packet0) = Ok q
-            /\ concat (r_rest (read_packet_v1 dec unzip has_c s packet0)) = rest
+  exists q, r_out (read_packet_v1 dec unzip hd s packet0) = Ok q
+            /\ concat (r_rest (read_packet_v1 dec unzip hd s packet0)) = rest
             /\ same_v1 (normalize p) q.
 Proof.
-  intros Env thr has_c p n ws p' s rest W B Hw Hs.
+  intros Env thr has_c hd p n ws p' s rest Himp W B Hw Hs.
   destruct (normalize_sendable p W B) as (W' & C' & B').
   rewrite <- (write_v1_normalize enc zip thr has_c p (wf_flag p W)) in Hw.
-  exact (roundtrip_v1_fields enc dec zip unzip Env thr has_c (normalize p) n ws p' s rest W' C' B' Hw Hs).
+  exact (roundtrip_v1_fields enc dec zip unzip Env thr has_c hd (normalize p) n ws p' s rest Himp W' C' B' Hw Hs).
 Qed.
 
 Lemma roundtrip_v2_any enc dec zip unzip : codec_env enc dec zip unzip ->
-  forall thr has_c p n ws p' s rest,
+  forall thr has_c hd p n ws p' s rest,
+  (has_c = true -> hd = true) ->
   wf_packet p -> body_ok p ->
   write_v2 enc zip thr has_c p = mkWres (Some n) ws p' ->
   concat s = concat ws ++ rest ->
-  exists q, r_out (read_packet_v2 dec unzip has_c s packet0) = Ok q
-            /\ concat (r_rest (read_packet_v2 dec unzip has_c s packet0)) = rest
+  exists q, r_out (read_packet_v2 dec unzip hd s packet0) = Ok q
+            /\ concat (r_rest (read_packet_v2 dec unzip hd s packet0)) = rest
             /\ same_v2 (normalize p) q.
 Proof.
-  intros Env thr has_c p n ws p' s rest W B Hw Hs.
+  intros Env thr has_c hd p n ws p' s rest Himp W B Hw Hs.
   destruct (normalize_sendable p W B) as (W' & C' & B').
   apply (write_v2_normalize enc zip thr has_c p n ws p' (wf_flag p W)) in Hw.
-  exact (roundtrip_v2_fields enc dec zip unzip Env thr has_c (normalize p) n ws p' s rest W' C' B' Hw Hs).
+  exact (roundtrip_v2_fields enc dec zip unzip Env thr has_c hd (normalize p) n ws p' s rest Himp W' C' B' Hw Hs).
 Qed.
 
 (* ---------------------------------------------------------------------------------- *)
@@ -479,24 +483,25 @@ Qed.
 Definition sendable (p : packet) : Prop := wf_packet p /\ clean_flags p /\ body_ok p.
 
 Lemma stream_v1 enc dec zip unzip : codec_env enc dec zip unzip ->
-  forall thr has_c ps frames,
+  forall hd ps frames,
   Forall sendable ps ->
-  Forall2 (fun p f => exists n ws p', write_v1 enc zip thr has_c p = mkWres (Some n) ws p'
+  Forall2 (fun p f => exists thr has_c n ws p', (has_c = true -> hd = true)
+                                      /\ write_v1 enc zip thr has_c p = mkWres (Some n) ws p'
                                       /\ f = concat ws) ps frames ->
   forall s rest, concat s = concat frames ++ rest ->
-  let res := read_many _ (fun s => read_packet_v1 dec unzip has_c s packet0) (length frames) s in
+  let res := read_many _ (fun s => read_packet_v1 dec unzip hd s packet0) (length frames) s in
   exists qs, fst res = map Ok qs /\ Forall2 same_v1 ps qs /\ concat (snd res) = rest.
 Proof.
-  intros Env thr has_c ps frames Hs HF s rest Hc res.
+  intros Env hd ps frames Hs HF s rest Hc res.
   exists (map (fun p => decoded_v1 p packet0) ps).
   assert (F2 : Forall2 (fun f q => forall s rest, concat s = f ++ rest ->
-                r_out (read_packet_v1 dec unzip has_c s packet0) = Ok q
-                /\ concat (r_rest (read_packet_v1 dec unzip has_c s packet0)) = rest)
+                r_out (read_packet_v1 dec unzip hd s packet0) = Ok q
+                /\ concat (r_rest (read_packet_v1 dec unzip hd s packet0)) = rest)
                frames (map (fun p => decoded_v1 p packet0) ps)).
-  { clear Hc res s rest. induction HF as [|p f ps fs (n & ws & p' & Hw & ->) _ IH]; [constructor|].
+  { clear Hc res s rest. induction HF as [|p f ps fs (thr & has_c & n & ws & p' & Himp & Hw & ->) _ IH]; [constructor|].
     inversion Hs as [|? ? (W & Hcl & Hb) Hs']; subst. cbn [map]. constructor; [|apply IH; assumption].
     intros s rest Hc. destruct Env as [E1 E2 E3 E4].
-    destruct (roundtrip_v1 enc dec zip unzip E1 E2 E3 E4 thr has_c p n ws p' s rest packet0 W Hcl Hw Hc)
+    destruct (roundtrip_v1 enc dec zip unzip E1 E2 E3 E4 thr has_c hd p n ws p' s rest packet0 Himp W Hcl Hw Hc)
       as (R1 & R2 & _). split; assumption. }
   destruct (read_many_frames _ _ frames _ F2 s rest Hc) as [A B].
   split; [exact A|split; [|exact B]].
@@ -505,30 +510,82 @@ Proof.
 Qed.
 
 Lemma stream_v2 enc dec zip unzip : codec_env enc dec zip unzip ->
-  forall thr has_c ps frames,
+  forall hd ps frames,
   Forall sendable ps ->
-  Forall2 (fun p f => exists n ws p', write_v2 enc zip thr has_c p = mkWres (Some n) ws p'
+  Forall2 (fun p f => exists thr has_c n ws p', (has_c = true -> hd = true)
+                                      /\ write_v2 enc zip thr has_c p = mkWres (Some n) ws p'
                                       /\ f = concat ws) ps frames ->
   forall s rest, concat s = concat frames ++ rest ->
-  let res := read_many _ (fun s => read_packet_v2 dec unzip has_c s packet0) (length frames) s in
+  let res := read_many _ (fun s => read_packet_v2 dec unzip hd s packet0) (length frames) s in
   exists qs, fst res = map Ok qs /\ Forall2 same_v2 ps qs /\ concat (snd res) = rest.
 Proof.
-  intros Env thr has_c ps frames Hs HF s rest Hc res.
+  intros Env hd ps frames Hs HF s rest Hc res.
   exists (map (fun p => decoded_v2 p packet0) ps).
   assert (F2 : Forall2 (fun f q => forall s rest, concat s = f ++ rest ->
-                r_out (read_packet_v2 dec unzip has_c s packet0) = Ok q
-                /\ concat (r_rest (read_packet_v2 dec unzip has_c s packet0)) = rest)
+                r_out (read_packet_v2 dec unzip hd s packet0) = Ok q
+                /\ concat (r_rest (read_packet_v2 dec unzip hd s packet0)) = rest)
                frames (map (fun p => decoded_v2 p packet0) ps)).
-  { clear Hc res s rest. induction HF as [|p f ps fs (n & ws & p' & Hw & ->) _ IH]; [constructor|].
+  { clear Hc res s rest. induction HF as [|p f ps fs (thr & has_c & n & ws & p' & Himp & Hw & ->) _ IH]; [constructor|].
     inversion Hs as [|? ? (W & Hcl & Hb) Hs']; subst. cbn [map]. constructor; [|apply IH; assumption].
     intros s rest Hc. destruct Env as [E1 E2 E3 E4].
-    destruct (roundtrip_v2 enc dec zip unzip E1 E2 E3 E4 thr has_c p n ws p' s rest packet0 W Hcl Hw Hc)
+    destruct (roundtrip_v2 enc dec zip unzip E1 E2 E3 E4 thr has_c hd p n ws p' s rest packet0 Himp W Hcl Hw Hc)
       as (R1 & R2 & _). split; assumption. }
   destruct (read_many_frames _ _ frames _ F2 s rest Hc) as [A B].
   split; [exact A|split; [|exact B]].
   clear -Hs. induction Hs as [|p ps (W & Hcl & Hb) _ IH]; cbn [map]; constructor; [|assumption].
   apply decoded_v2_same. assumption.
 Qed.
+
+(* ---------------------------------------------------------------------------------- *)
+(* a writer that fails after k bytes *)
+
+Lemma run_writer_fits ws : forall k, lenN (concat ws) <= k ->
+  run_writer k ws = (ws, true, lenN (concat ws)).
+Proof.
+  induction ws as [|w r IH]; intros k H; [reflexivity|].
+  cbn [run_writer concat] in *. rewrite lenN_app in H.
+  destruct (N.leb_spec (lenN w) k) as [_|X]; [|lia].
+  rewrite IH by lia. rewrite lenN_app. reflexivity.
+Qed.
+
+Lemma run_writer_short ws : forall k, k < lenN (concat ws) ->
+  exists c rest, run_writer k ws = (c, false, k) /\ ws = c ++ rest /\ c <> [].
+Proof.
+  induction ws as [|w r IH]; intros k H; [cbn in H; lia|].
+  cbn [run_writer concat] in *. rewrite lenN_app in H.
+  destruct (N.leb_spec (lenN w) k) as [L|L].
+  - destruct (IH (k - lenN w)) as (c & rest & E & -> & Hc); [lia|]. rewrite E.
+    exists (w :: c), rest. split; [f_equal; lia|]. split; [reflexivity|discriminate].
+  - exists [w], r. split; [reflexivity|]. split; [reflexivity|discriminate].
+Qed.
+
+(* a WritePacket result against a writer with room for k bytes: with room for the whole frame
+   nothing changes; otherwise the error is reported, the Write calls made are a non-empty
+   prefix of the frame's calls (none after the failing one) and the caller's packet is as after
+   a successful call *)
+Definition writer_outcome (k : N) (w : wres) (n : N) : Prop :=
+  (n <= k -> to_writer k w = w)
+  /\ (k < n -> w_ret (to_writer k w) = None
+              /\ w_pkt (to_writer k w) = w_pkt w
+              /\ exists rest, w_writes w = w_writes (to_writer k w) ++ rest
+                              /\ w_writes (to_writer k w) <> []).
+
+Lemma to_writer_outcome k w n :
+  w_ret w = Some n -> n = lenN (concat (w_writes w)) -> writer_outcome k w n.
+Proof.
+  intros Hr Hn. unfold writer_outcome, to_writer. rewrite Hr. split; intros H.
+  - rewrite run_writer_fits by lia. destruct w; cbn in *. subst. reflexivity.
+  - destruct (run_writer_short (w_writes w) k) as (c & rest & E & Hw & Hc); [lia|].
+    rewrite E. cbn [w_ret w_pkt w_writes]. repeat split. exists rest. split; assumption.
+Qed.
+
+Lemma failing_writer_v1 enc zip thr hc p n k :
+  w_ret (write_v1 enc zip thr hc p) = Some n -> writer_outcome k (write_v1 enc zip thr hc p) n.
+Proof. intros H. apply to_writer_outcome; [exact H|]. apply write_v1_size. exact H. Qed.
+
+Lemma failing_writer_v2 enc zip thr hc p n k :
+  w_ret (write_v2 enc zip thr hc p) = Some n -> writer_outcome k (write_v2 enc zip thr hc p) n.
+Proof. intros H. apply to_writer_outcome; [exact H|]. apply write_v2_size. exact H. Qed.
 
 (* ---------------------------------------------------------------------------------- *)
 (* the length-prefixed helper *)
